@@ -26,7 +26,7 @@ EXPLANATION = (
     'NumPy >= 2). Filter preparation: the real __init__ runs on a stub bank; the taps handed to the DFT are decided, index by '
     'index, to be the bank\'s impulse response rolled by the documented offset and clamped to max_support, the energy filter the '
     'unit impulse at the same offset, and frame_length / dft_size / accumulator geometry follow the documented formulas.')
-BOUNDS = {'quick': 'S=2, M in {3,4}, D in {6,8} (incl. non-power-of-two), both styles, power and magnitude, log on/off, 1-2 coefficients, N <= 12; float32 and float64; constructor: 3 stub banks x 2 styles x energy on/off',
+BOUNDS = {'quick': 'S=2, M in {3,4}, D in {6,8} (incl. non-power-of-two), both styles, power and magnitude, log on/off, 1-2 coefficients, N <= 12; float32 and float64; constructor: 4 stub banks (incl. supports with negative odd sum) x 2 styles x energy on/off',
           'thorough': 'additionally S=3, D=9, N <= 16'}
 OUTSIDE = ['FFT numerics (the chain is replaced by the circular FIR it computes; that identity is validated on real computers in the C01 conformance step)',
            'floating point', 'USE_FFTPACK=True branch (scipy is not installed in this environment: dead code here)', 'window values (C20)']
